@@ -21,6 +21,7 @@ pub mod c16;
 pub mod c17;
 #[cfg(feature = "cluster")]
 pub mod c18;
+pub mod c19;
 pub mod fac;
 
 pub fn dispatch(args: &Args, rep: &mut Report) {
@@ -45,6 +46,8 @@ pub fn dispatch(args: &Args, rep: &mut Report) {
         "C17" => c17::run(args, rep),
         #[cfg(feature = "cluster")]
         "C18" => c18::run(args, rep),
+        #[cfg(feature = "cluster")]
+        "C19" => c19::run(args, rep),
         p => {
             eprintln!("unknown property {p}");
             std::process::exit(2);
